@@ -10,6 +10,7 @@ S4  detector / observable / coordinate-shift instructions: guards partition the 
 """
 from __future__ import annotations
 
+import ast
 import itertools
 from fractions import Fraction
 from typing import Dict, List, Optional, Tuple
@@ -148,12 +149,28 @@ def s1(model: Model, rep: Report):
     kw = dict(v[3]) if v[0] == "call" else {}
     ok = v[0] == "call" and kw.get("name") == ("const", "TICK") and kw.get("targets") == ("list", ()) and kw.get("gate_args", ("list", ())) == ("list", ())
     rep.check(ok, "C08.S1", "TickOperationsFactory.construct", c.loc, found=show(v), required="stim.CircuitInstruction(name='TICK', targets=[])", what="a barrier is not exported as a bare TICK", detail="tick")
+    unread = []
     for fname in ANNOTATION_FACTORIES:
         F = model.cls(fname)
         c = F.resolve("construct")
-        v = Evaluator(model, inline_methods=False).value_of(c, self_cls=F)
-        op = sym([p for p in c.param_names if p != c.self_name][0])
-        rep.check(v == ("call", ("attr", op, "to_stim_instruction"), (), ()), "C08.S1", f"{fname}.construct", c.loc, found=show(v), required="operation.to_stim_instruction()",
+        op_name = [p for p in c.param_names if p != c.self_name][0]
+        op = sym(op_name)
+        try:
+            v = Evaluator(model, inline_methods=False).value_of(c, self_cls=F)
+        except Unsupported:
+            v = None
+        delegates = v == ("call", ("attr", op, "to_stim_instruction"), (), ())
+        builds_itself = v is None or any(isinstance(n_, ast.Attribute) and n_.attr == "CircuitInstruction" for n_ in ast.walk(c.node))
+        if not delegates and builds_itself:
+            # the factory assembles the instruction from the operation's fields: for detectors the case analysis of S4 is run on the factory itself; the other
+            # annotations are left unread (not wrong)
+            if fname == "DetectorOperationsFactory":
+                with rep.isolated():
+                    _detector_cases(model, rep, c, F, op_name)
+            else:
+                unread.append(f"{fname}.construct builds its instruction itself (does not delegate to operation.to_stim_instruction()); not read")
+            continue
+        rep.check(delegates, "C08.S1", f"{fname}.construct", c.loc, found=show(v), required="operation.to_stim_instruction()",
                   what="an annotation is not exported as the operation's own instruction", detail="annotation-factory")
     # the default manager delegates
     M = model.cls("StimFactoryManager")
@@ -163,6 +180,8 @@ def s1(model: Model, rep: Report):
     circ = sym([p for p in c.param_names if p != c.self_name][0])
     ok = is_call_of(v, "construct") and v[1][1] == ("attr", ms, "_factory") and (list(v[2]) + [x for _, x in v[3]]) == [circ]
     rep.check(ok, "C08.S1", "StimFactoryManager.construct", c.loc, found=show(v), required="self._factory.construct(circuit)", what="the default exporter does not use its table", detail="delegate")
+    if unread:
+        raise AnalysisError("; ".join(unread))
     g = model.function("addon_stim.factory_manager", "to_stim")
     v = Evaluator(model, inline_methods=False).value_of(g)
     ok = is_call_of(v, "construct") and v[1][1] == sym("factory") and (list(v[2]) + [x for _, x in v[3]]) == [sym("circuit")]
@@ -320,11 +339,11 @@ def _s4_case(rep, f, outs, mp, has_m, has_s, has_r, has_so, sub_case, A, m, sc, 
             raise AnalysisError(f"DetectorOperation.to_stim_instruction: guard not decidable: {show(c)}")
     case = f"main={'set' if has_m else 'None'}, secondary={'set' if has_s else 'None'}, ref_offset={'set' if has_r else 'None'}, sec_offset={'set' if has_so else 'None'}" + sub_case
     if len(hit) != 1 or hit[0].exit != "return":
-        rep.fail("C08.S4", f"DetectorOperation.to_stim_instruction[{case}]", f.loc, found=f"{len(hit)} outcomes", required="exactly one instruction", what="target-shape cases are not a partition", detail=f"partition:{case}")
+        rep.fail("C08.S4", f"{f.qualname}[{case}]", f.loc, found=f"{len(hit)} outcomes", required="exactly one instruction", what="target-shape cases are not a partition", detail=f"partition:{case}")
         return
     ins = _instr(hit[0].value)
     if ins is None:
-        rep.fail("C08.S4", f"DetectorOperation.to_stim_instruction[{case}]", f.loc, found=show(hit[0].value), required="a stim.CircuitInstruction", what="no instruction produced", detail=f"shape:{case}")
+        rep.fail("C08.S4", f"{f.qualname}[{case}]", f.loc, found=show(hit[0].value), required="a stim.CircuitInstruction", what="no instruction produced", detail=f"shape:{case}")
         return
     recs = _recs(ins.get("targets"), hit[0])
     if recs is not None:
@@ -342,7 +361,7 @@ def _s4_case(rep, f, outs, mp, has_m, has_s, has_r, has_so, sub_case, A, m, sc, 
         while ga is not None and ga[0] == "var":
             ga = ga[3]
         ok = ok and ga == ("list", (A["qubit_index"], lin({}, Fraction(0))))
-    rep.check(ok, "C08.S4", f"DetectorOperation.to_stim_instruction[{case}]", f.loc, found=f"{show(ins.get('name'))} rec{[show(r) for r in recs] if recs is not None else show(ins.get('targets'))} args {show(ins.get('gate_args')) if ins.get('gate_args') else None}",
+    rep.check(ok, "C08.S4", f"{f.qualname}[{case}]", f.loc, found=f"{show(ins.get('name'))} rec{[show(r) for r in recs] if recs is not None else show(ins.get('targets'))} args {show(ins.get('gate_args')) if ins.get('gate_args') else None}",
               required=f"DETECTOR rec{[show(w) for w in want]}" + (" args [qubit_index, 0]" if want else ""),
               what="the detector points at other measurement records than its offsets say", detail=f"offsets:{case}")
 
@@ -353,12 +372,22 @@ def s4(model: Model, rep: Report):
                        "LogicalObservableOperation: main-(last+1), args (0). CoordinateShiftOperation: SHIFT_COORDS (space, time)")
     D = model.cls("DetectorOperation")
     f = D.resolve("to_stim_instruction")
+    _detector_cases(model, rep, f, D, None)
+    _s4_rest(model, rep)
+
+
+def _detector_cases(model: Model, rep: Report, f, self_cls, obj_param: Optional[str]):
+    """The case analysis of S4 over the function that builds the DETECTOR instruction: the operation's own method (obj_param None: the object is self) or a factory's
+    construct that assembles the instruction itself from the operation it is given (obj_param names that parameter)."""
+    D = model.cls("DetectorOperation")
     ev = Evaluator(model)
+    if obj_param is not None:
+        ev.set_type(sym(obj_param), D)
     try:
-        outs = [q for q in PathEnumerator(ev).function_paths(f, self_cls=D) if q.exit in ("return", "raise", "fall")]
+        outs = [q for q in PathEnumerator(ev).function_paths(f, self_cls=self_cls) if q.exit in ("return", "raise", "fall")]
     except Unsupported as e:
-        raise AnalysisError(f"DetectorOperation.to_stim_instruction: {e}")
-    s = sym(f.self_name)
+        raise AnalysisError(f"{f.qualname}: {e}")
+    s = sym(f.self_name if obj_param is None else obj_param)
     A = {n: ("attr", s, n) for n in ("main_target", "secondary_target", "reference_offset", "secondary_offset", "last_acquisition_index", "qubit_index")}
     atoms = {n: t_cmp("is", A[n], NONE) for n in ("main_target", "secondary_target", "reference_offset", "secondary_offset")}
     one = lin({}, Fraction(1))
@@ -395,7 +424,11 @@ def s4(model: Model, rep: Report):
             sub_case = "".join(f", {truthy[a]} {'non-zero' if (v == TRUE) == (a[0] != 'cmp' or a[1] != '==') else '== 0'}" for a, v in zip(free, values))
             _s4_case(rep, f, outs, mp2, has_m, has_s, has_r, has_so, sub_case, A, m, sc, ref, spec)
             n += 1
-    rep.analysed["C08.S4 detector cases"] = n
+    rep.analysed["C08.S4 detector cases" + ("" if obj_param is None else f" ({f.qualname})")] = n
+
+
+def _s4_rest(model: Model, rep: Report):
+    one = lin({}, Fraction(1))
     # observable
     L = model.cls("LogicalObservableOperation")
     f = L.resolve("to_stim_instruction")
